@@ -18,6 +18,10 @@ sides are compared on: result token, server routed to, identity of the inner cli
 creation), the bookkeeping state (`hasher.nodes`, `_failed_clients`, `_dead_clients`, `_last_dead_check_time`) and, for
 every client object registered in `self.clients`, its identity, whether it has a socket and how many bytes are left
 unread on it.
+
+`run_python` / `driver_line` also understand broadcast items `("bcast", kind, args, scripts, now)` (`flush_all`, `quit`,
+`close`, `disconnect_all`; model `lean/Pymc/Model/HashBroadcast.lean`); the histories of this file contain none — they are
+generated and compared by `hashbroadcast_diff.py`.
 """
 from common import FakeClock
 import os
@@ -65,6 +69,11 @@ class World:
 
 
 EMPTY = {"cf": None, "sf": None, "evs": []}
+
+
+class BookkeepingValueError(ValueError):
+    """the `ValueError("No such node … to remove")` of `hasher.remove_node`: a ValueError for the HashClient, its own class
+    (result token `exc:BookkeepingValueError`) for the comparison — an inner client may raise a plain ValueError too"""
 
 
 class FakeSock:
@@ -144,7 +153,7 @@ def make_hasher(world):
             if n in self.nodes:
                 self.nodes.remove(n)
             else:
-                raise ValueError("no")
+                raise BookkeepingValueError("No such node %s to remove" % (n,))
 
         def get_node(self, key):
             if not self.nodes:
@@ -338,7 +347,9 @@ def state(hc):
     return "nodes=%s failed=%s dead=%s ldc=%d" % (nodes, failed, dead, hc._last_dead_check_time)
 
 
-def run_python(params, history):
+def run_python(params, history, routed_out=None):
+    """`routed_out` (a list): per call the server the hasher routed the last key to (`None`: nothing in rotation,
+    "unrouted": the hasher was not asked)"""
     n, ra, rt, dt, ign, t0 = params
     w = World()
 
@@ -366,8 +377,15 @@ def run_python(params, history):
             return orig(self, *a, **kw)
         return f
     for name in ("get", "gets", "gat", "gats", "set", "add", "replace", "append", "prepend", "cas", "delete", "incr", "decr", "touch",
-                 "get_many", "gets_many", "set_many"):
+                 "get_many", "gets_many", "set_many", "flush_all", "quit"):
         setattr(CountingClient, name, wrap(name))
+
+    def close(self, _orig=Client.close):
+        # `close` receives nothing; called by a broadcast it is the function invoked on the client object (inside another method
+        # the object is already recorded)
+        w.invoked.append(self)
+        return _orig(self)
+    CountingClient.close = close
 
     class HC(H.HashClient):
         client_class = CountingClient
@@ -427,10 +445,22 @@ def run_python(params, history):
                     ks.append(ko)
                 w.prefs = None
                 tok = many_token(lambda: (hc.gets_many(ks) if gets else hc.get_many(ks)), gets)
+            elif item[0] == "bcast":
+                # a broadcast (`lean/Pymc/Model/HashBroadcast.lean`): one script per server (`close` receives nothing)
+                _m, kind, args, scripts, now = item
+                w.scripts, w.fed, w.now, w.prefs = dict(scripts), set(), now, None
+                if kind == "flush_all":
+                    tok = P.res_token(lambda: hc.flush_all(*args))
+                elif kind == "quit":
+                    tok = P.res_token(lambda: hc.quit())
+                else:
+                    tok = P.res_token(lambda: (hc.close if kind == "close" else hc.disconnect_all)())
             else:
                 (thunk, _tok, sc, now, prefs) = item
                 w.scripts, w.fed, w.now, w.prefs, w.routed = sc, set(), now, prefs, "unrouted"
                 tok = P.res_token(lambda: thunk(hc))
+            if routed_out is not None:
+                routed_out.append(w.routed)
             ids = {id(c): i for i, c in enumerate(w.created)}
             plus = lambda l: "+".join(l) if l else "-"  # noqa: E731
             srv = plus([str(sv) for sv, _c in w.safely])
@@ -471,6 +501,19 @@ def driver_line(params, history):
             kstr = "|".join(f"{rks(k.prefs)}~b:{bytes(k).hex()}" for k in keys) if keys else "-"
             sct = " ".join(" ".join(f"k{j}.{tk}" for tk in P.script_tokens(sc).split()) for j, sc in enumerate(scripts))
             segs.append(f"op=hdelete_many t={now} nr={ob(noreply)} keys={kstr} {sct}".strip())
+            continue
+        if item[0] == "bcast":
+            _m, kind, args, scripts, now = item
+            sct = " ".join(" ".join(f"s{sv}.{tk}" for tk in P.script_tokens(sc).split()) for sv, sc in sorted(scripts.items()))
+            if kind == "flush_all":
+                delay = args[0] if len(args) > 0 else 0
+                nr = args[1] if len(args) > 1 else None
+                d = "x" if not isinstance(delay, int) else "i:%d" % delay
+                segs.append(f"op=hflush_all t={now} d={d} nr={ob(nr)} {sct}".strip())
+            elif kind == "quit":
+                segs.append(f"op=hquit t={now} {sct}".strip())
+            else:
+                segs.append(f"op=hclose t={now}")
             continue
         (_th, tok, sc, now, prefs) = item
         rk = rks(prefs)
